@@ -224,7 +224,7 @@ PROPS = {
         "rule": "hooks of 1..5 arguments drawn from exact placeholders, embedded/near placeholders (--title=%subtype, %supertype/%subtype, %url%url, quoted, other letter case, truncated), dashes and empty strings, one placeholder repeated, every placeholder twice, every placeholder but %url, with the program itself sometimes named like a placeholder or by its absolute path; links with spaces, quotes, shell metacharacters, leading dashes, newlines, placeholder look-alikes, data: / file: / javascript: / mailto: / relative / blank links; media types given as the triple or as written in a document (parameters, upper case, structured suffix, several slashes, blanks, placeholders inside, none at all) through the real mime.Parse; "
                 "the real ui.openExternally runs a dump program that records argv and stdin; non-trivial = at least one argument after the program; distinct by op content; "
                 "media group: posts and actors built from documents with url / attachment / icon / image link lists (typed, untyped, malformed, shorthand strings) x histories of 3..9 openings (Media, SelectLink k, ProfilePic, Banner, one of them repeated) through the real selection code and the real openExternally; "
-                "half of the group are whole items as in C12's mediaL group (hostile hrefs inside HTML / Markdown / gemtext / plain-text bodies and attachment links, media types from the same pool): the numbers are typed through the real ui.Update (digits + Enter, o, p, b) on a page showing the item, or asked of SelectLink directly, and the recorded argv / stdin of the hook program is compared with the model; every frame drawn meanwhile must be terminal-safe; non-trivial = something was selected",
+                "half of the group are whole items as in C12's mediaL group (hostile hrefs inside HTML / Markdown / gemtext / plain-text bodies and attachment links, media types from the same pool): the numbers are typed through the real ui.Update (digits + Enter, o, p, b) on a page showing the item, or asked of SelectLink directly, and the recorded argv / stdin of the hook program is compared with the model; every frame drawn meanwhile must be terminal-safe, and a typed number must start the program with what SelectLink answers for that number; non-trivial = something was selected",
         "trusted": ["os/exec passes argv unchanged and never involves a shell (generated fact: exec.Command(command[0], command[1:]...))"],
         "assumptions": ["the hook is non-empty (Config.Safe, C19)"],
     },
